@@ -321,3 +321,70 @@ Example C03_reject_clean_teardown_nonvacuous :
   free st = 1 /\ free (fst (step_rt v st (EvAAA 2 ARej))) = 2.
 Proof. intros v st. repeat split; timeout 20 (vm_compute; reflexivity). Qed.
 Print Assumptions C03_reject_clean_teardown_nonvacuous.
+
+(* ====================================================================== *)
+(* IPoE gate over ALL event sequences (IpoeGateBase.v / IpoeGateHandlers.v / IpoeGateMain.v / IpoeGateEx.v) —
+   wrappers only.  This supersedes the STATUS note above: for the repaired variant (rep = true, = /repo HEAD with
+   "ipoe: ignore AAA responses when the session has no request in flight") the two statements of the property are
+   proved for every pool size and EVERY event list from the initial state; C03_ipoe_bounded_sweep is redundant. *)
+From OV Require C03.IpoeGateMain C03.IpoeGateEx.
+
+(* gate: the monitor of IpoeModel.v never flags — every service output (OFFER, ACK, ADVERTISE, REPLY, dataplane
+   session add, IPv4/IPv6 programming, Active lifecycle event) of an attempt (subscriber, incarnation) is preceded by
+   an accept that answered that very attempt's outstanding AAA request, with no reject for it in between *)
+Theorem C03_ipoe_gate : forall n4 n6 evs, imon_run (snd (irun true (iinit n4 n6) evs)) imon0 = true.
+Proof. exact IpoeGateMain.ipoe_gate. Qed.
+Print Assumptions C03_ipoe_gate.
+
+Example C03_ipoe_gate_nonvacuous :
+  IpoeGateEx.has_service (snd (irun true (iinit 2 8) IpoeGateEx.iw_served)) = true /\
+  imon_run (snd (irun true (iinit 2 8) IpoeGateEx.iw_served)) imon0 = true /\
+  imon_run (IpoeGateEx.drop_aaa (snd (irun true (iinit 2 8) IpoeGateEx.iw_served))) imon0 = false /\
+  IpoeGateEx.has_service (snd (irun true (iinit 2 8) IpoeGateEx.iw_pending)) = false /\
+  IpoeGateEx.has_service (snd (irun true (iinit 2 8) (IpoeGateEx.iw_rejected ++ IpoeGateEx.iw_pending))) = false.
+Proof. exact IpoeGateEx.gate_nonvacuous. Qed.
+Print Assumptions C03_ipoe_gate_nonvacuous.
+
+(* reject-clean: at the end of any history, an attempt (session object s of subscriber i, current or earlier
+   incarnation) for which the monitor holds no accept — its request was last answered reject / error, is still
+   unanswered, or was never made — is not approved and holds nothing: no lease in the IPv4 / IPv6 registry pool,
+   no address (bound, pending binding, allocator context), no dataplane session, no queued dataplane add.
+   [imon_fin] is the monitor of imon_run returning its final state. *)
+Theorem C03_ipoe_reject_clean : forall n4 n6 evs mn i sl s,
+  IpoeGateMain.imon_fin (snd (irun true (iinit n4 n6) evs)) imon0 = Some mn ->
+  nth_error (isl (fst (irun true (iinit n4 n6) evs))) i = Some sl -> In s (scur sl :: shist sl) ->
+  imem (i, igen s) (macc mn) = false ->
+  iappr s = false /\ holds_nothing_i (fst (irun true (iinit n4 n6) evs)) (i, igen s) s = true.
+Proof. exact IpoeGateMain.ipoe_reject_clean. Qed.
+Print Assumptions C03_ipoe_reject_clean.
+
+Example C03_ipoe_reject_clean_nonvacuous :
+  option_map igen (IpoeGateEx.cur_of IpoeGateEx.iw_rejected 0) = Some 1 /\
+  IpoeGateEx.final_acc IpoeGateEx.iw_rejected (0, 1) = Some false /\
+  IpoeGateEx.cur_clean IpoeGateEx.iw_rejected 0 = Some true /\
+  option_map igen (IpoeGateEx.cur_of IpoeGateEx.iw_pending 0) = Some 1 /\
+  IpoeGateEx.final_acc IpoeGateEx.iw_pending (0, 1) = Some false /\
+  IpoeGateEx.cur_clean IpoeGateEx.iw_pending 0 = Some true /\
+  option_map igen (IpoeGateEx.cur_of IpoeGateEx.iw_served 0) = Some 1 /\
+  IpoeGateEx.final_acc IpoeGateEx.iw_served (0, 1) = Some true /\
+  IpoeGateEx.cur_clean IpoeGateEx.iw_served 0 = Some false /\
+  held (0, 1) (p4 (fst (irun true (iinit 2 8) IpoeGateEx.iw_served))) = 1.
+Proof. exact IpoeGateEx.reject_clean_nonvacuous. Qed.
+Print Assumptions C03_ipoe_reject_clean_nonvacuous.
+
+(* the same on the state alone, and as the predicate of the bounded sweep, for every history: an attempt that is
+   not approved holds nothing *)
+Theorem C03_ipoe_unapproved_holds_nothing : forall n4 n6 evs i sl s,
+  nth_error (isl (fst (irun true (iinit n4 n6) evs))) i = Some sl -> In s (scur sl :: shist sl) ->
+  iappr s = false -> holds_nothing_i (fst (irun true (iinit n4 n6) evs)) (i, igen s) s = true.
+Proof. exact IpoeGateMain.ipoe_unapproved_holds_nothing. Qed.
+Print Assumptions C03_ipoe_unapproved_holds_nothing.
+Theorem C03_ipoe_unapproved_clean : forall n4 n6 evs, unapproved_clean (fst (irun true (iinit n4 n6) evs)) = true.
+Proof. exact IpoeGateMain.ipoe_unapproved_clean. Qed.
+Print Assumptions C03_ipoe_unapproved_clean.
+
+(* the monitor's verdict is its final state being defined *)
+Theorem C03_ipoe_monitor_final : forall tr mn,
+  imon_run tr mn = match IpoeGateMain.imon_fin tr mn with Some _ => true | None => false end.
+Proof. exact IpoeGateMain.imon_run_fin. Qed.
+Print Assumptions C03_ipoe_monitor_final.
